@@ -160,6 +160,20 @@ def focli(run):
     expect("find-overlaps CLI: overlap length +1 / position label (model drift)", jr, [2, 3], kind="M")
 
 
+def afcli(run):
+    from harness import agp_engine as A
+    os.environ["VERIF_AGP_ROOT"] = str(run.sub("agp"))
+    pool = {"header": [], "scaffolds": [{"name": "N", "rows": [{"k": "F", "name": "U", "s": 100, "e": 600, "st": -1, "tags": []}, {"k": "G", "name": "contig", "s": 1, "e": 1, "st": 0, "tags": []},
+                                                              {"k": "G", "name": "centromere", "s": 1, "e": 200, "st": 0, "tags": []}, {"k": "F", "name": "a", "s": 1, "e": 9, "st": 1, "tags": []}]}]}
+    base = {"sc": {"files": [{"ext": "txt", "a": 2}], "i": "", "o": "tpf", "f": "", "n": "", "stdin_asm": 1}, "infmts": ["AGP"], "asms": [pool]}
+    traces = [A.run_afcli(dict(base, tid=t)) for t in (1, 2, 3)]
+    bad = copy.deepcopy(traces)
+    bad[1]["lines"][0][1] = "TYPE-9"            # one field of the text written
+    bad[2]["where"] = "stdout"                  # claims the output went to STDOUT although -o was given
+    jr = C.judge("AgpTpfTrace", bad, run.dir, consts="NRandomAsm = 0", spec="TraceSpec", label="st-afcli")
+    expect("asm-format CLI: one output field / output destination (model drift)", jr, [2, 3], kind="M")
+
+
 def clobber(run):
     from harness import cli_engine as E
     root = str(run.sub("cli"))
@@ -176,7 +190,7 @@ def clobber(run):
 def main():
     run = C.Run("selftest", "quick")
     try:
-        for fn in (lookup, ovr, cache, fasta, remap, reports, cliroute, focli, clobber):
+        for fn in (lookup, ovr, cache, fasta, remap, reports, cliroute, focli, afcli, clobber):
             fn(run)
     finally:
         run.cleanup()
